@@ -72,6 +72,63 @@ static int sx_tier_thorough = 0;
 static const char *sx_replay_file = NULL;
 static char sx_known[16][256]; static int sx_nknown = 0;
 
+/* ---- crash / hang guard: a signal or a non-returning call INSIDE the code under test is a violation of the run that
+ * is reported with the operation history being executed (not a broken check).  sx_bfs and sx_replay_named maintain the
+ * current case; harnesses with their own loops may call sx_guard_set()/sx_guard_clear() around calls into the library. */
+#include <signal.h>
+#include <pthread.h>
+static volatile int sx_guard_active = 0;            /* 1 while inside sys->fresh/apply/canon (code under test) */
+static char sx_guard_scen[128], sx_guard_case[2304];
+static const void *sx_guard_sys = NULL; static unsigned char sx_guard_h[256]; static int sx_guard_n = 0;   /* raw history (formatted lazily) */
+static void sx_guard_format(void);
+static volatile long sx_guard_progress = 0;
+static int sx_hang_seconds = 60;                    /* a single operation that runs longer than this is a hang */
+static void sx_violation(const char *scen, const char *history, const char *msg);
+static void sx_report(const char *name, long states, long transitions, long evaluations, long nontrivial,
+                      long distinct_outcomes, int exhaustive, int violations, double wall, const char *extra_json,
+                      const char **samples, int nsamples);
+static int sx_finish(void);
+static void sx_guard_set(const char *scen, const char *casestr) { sx_guard_sys = NULL; snprintf(sx_guard_scen, sizeof(sx_guard_scen), "%s", scen); snprintf(sx_guard_case, sizeof(sx_guard_case), "%s", casestr); sx_guard_progress++; sx_guard_active = 1; }
+static void sx_guard_clear(void) { sx_guard_active = 0; sx_guard_progress++; }
+static void sx_guard_fail(const char *what)
+{
+    static volatile int once = 0; if (__sync_lock_test_and_set(&once, 1)) _exit(1);
+    if (sx_guard_sys) sx_guard_format();
+    char msg[400]; snprintf(msg, sizeof(msg), "%s inside the code under test while executing the last operation of this history (earlier operations passed)", what);
+    if (sx_replay_file) { printf("  %s\nVIOLATION property=%s replay=%s\n", msg, sx_property, sx_replay_file); fflush(stdout); _exit(1); }
+    sx_violation(sx_guard_scen, sx_guard_case, msg);
+    const char *sp[1] = { sx_guard_case };
+    sx_report(sx_guard_scen, 0, 0, 0, 0, 0, 0, 1, 0.0, "\"crashed\":true", sp, 1);
+    sx_finish(); fflush(NULL); _exit(1);
+}
+static void sx_guard_sig(int sig)
+{
+    if (!sx_guard_active) { signal(sig, SIG_DFL); raise(sig); return; }     /* a crash of the harness itself stays a broken check */
+    char w[64]; snprintf(w, sizeof(w), "crash (signal %d%s)", sig, sig == SIGSEGV ? ", SIGSEGV" : sig == SIGABRT ? ", SIGABRT: abort/failed assertion" : sig == SIGFPE ? ", SIGFPE" : sig == SIGBUS ? ", SIGBUS" : "");
+    sx_guard_fail(w);
+}
+static void *sx_guard_watchdog(void *a)
+{
+    (void)a; long last = -1; int still = 0;
+    for (;;) {
+        struct timespec ts = { 2, 0 }; nanosleep(&ts, NULL);
+        long p = sx_guard_progress;
+        if (sx_guard_active && p == last) { if (++still * 2 >= sx_hang_seconds) { char w[96]; snprintf(w, sizeof(w), "hang (one operation did not return within %d s)", sx_hang_seconds); sx_guard_fail(w); } }
+        else still = 0;
+        last = p;
+    }
+    return NULL;
+}
+static void sx_guard_install(void)
+{
+    static char altstack[1 << 16]; stack_t ss = { .ss_sp = altstack, .ss_size = sizeof(altstack), .ss_flags = 0 }; sigaltstack(&ss, NULL);
+    struct sigaction sa; memset(&sa, 0, sizeof(sa)); sa.sa_handler = sx_guard_sig; sa.sa_flags = SA_ONSTACK | SA_NODEFER;
+    int sigs[] = { SIGSEGV, SIGBUS, SIGFPE, SIGILL, SIGABRT }; for (unsigned i = 0; i < sizeof(sigs) / sizeof(sigs[0]); i++) sigaction(sigs[i], &sa, NULL);
+    const char *hs = getenv("SX_HANG_SECONDS"); if (hs && atoi(hs) > 0) sx_hang_seconds = atoi(hs);
+    pthread_t th; pthread_attr_t at; pthread_attr_init(&at); pthread_attr_setdetachstate(&at, PTHREAD_CREATE_DETACHED);
+    pthread_create(&th, &at, sx_guard_watchdog, NULL);
+}
+
 static void sx_json_str(FILE *f, const char *s)
 {
     fputc('"', f);
@@ -128,12 +185,19 @@ static void sx_hist_str(const sx_system_t *sys, const uint8_t *h, int n, char *b
 }
 
 /* replay a history; returns the object (or NULL on violation with err filled) */
+static void sx_guard_hist(const sx_system_t *sys, const uint8_t *h, int n) { sx_guard_sys = sys; sx_guard_n = n < (int)sizeof(sx_guard_h) ? n : (int)sizeof(sx_guard_h); memcpy(sx_guard_h, h, sx_guard_n); sx_guard_progress++; sx_guard_active = 1; }
+static void sx_guard_format(void) { const sx_system_t *sys = (const sx_system_t *)sx_guard_sys; snprintf(sx_guard_scen, sizeof(sx_guard_scen), "%s", sys->name); sx_hist_str(sys, sx_guard_h, sx_guard_n, sx_guard_case, sizeof(sx_guard_case)); }
 static void *sx_replay(const sx_system_t *sys, const uint8_t *h, int n, char *err)
 {
+    sx_guard_set(sys->name, "(fresh object)");
     void *o = sys->fresh();
+    sx_guard_clear();
     for (int i = 0; i < n; i++) {
         if (sys->enabled && !sys->enabled(o, h[i])) { snprintf(err, SX_ERRLEN, "internal: op %d not enabled on replay at step %d", h[i], i); sys->destroy(o); return NULL; }
-        if (sys->apply(o, h[i], err)) { sys->destroy(o); return NULL; }
+        sx_guard_hist(sys, h, i + 1);
+        int bad = sys->apply(o, h[i], err);
+        sx_guard_clear();
+        if (bad) { sys->destroy(o); return NULL; }
     }
     return o;
 }
@@ -169,7 +233,9 @@ static int sx_bfs(const sx_system_t *sys, sx_stats_t *st)
                 sys->destroy(ob2); }
             if (sys->enabled && !sys->enabled(ob, op)) { sys->destroy(ob); continue; }
             st->transitions++; st->evaluations++;
+            { uint8_t gh[SX_MAXDEPTH]; memcpy(gh, cur.h, cur.len); gh[cur.len] = (uint8_t)op; sx_guard_hist(sys, gh, cur.len + 1); }
             int bad = sys->apply(ob, op, err);
+            sx_guard_clear();
             if (cur.len + 1 > st->depth_reached) st->depth_reached = cur.len + 1;
             if (bad) {
                 char hs[2048]; uint8_t hh[SX_MAXDEPTH]; memcpy(hh, cur.h, cur.len); hh[cur.len] = (uint8_t)op;
@@ -180,8 +246,10 @@ static int sx_bfs(const sx_system_t *sys, sx_stats_t *st)
                 if (st->violations >= 3) goto out;
                 continue;
             }
-            cl = sys->canon(ob, cbuf, 1 << 16);
+            { uint8_t gh[SX_MAXDEPTH]; memcpy(gh, cur.h, cur.len); gh[cur.len] = (uint8_t)op; sx_guard_hist(sys, gh, cur.len + 1); }
+            cl = sys->canon(ob, cbuf, 1 << 16);      /* the canonical walk reads the real structure: a crash in it is the last operation's doing */
             sys->destroy(ob);
+            sx_guard_clear();
             if (sx_set_add(&seen, sx_hash(cbuf, cl))) {
                 st->states++;
                 if (cur.len + 1 >= 2) st->nontrivial++;
@@ -219,7 +287,10 @@ static int sx_replay_named(const sx_system_t *sys, const char *hist)
     void *o = sys->fresh();
     for (int i = 0; i < n; i++) {
         char nm[64]; sys->opname(h[i], nm, sizeof(nm));
+        sx_guard_set(sys->name, hist);
         int bad = sys->apply(o, h[i], err);
+        if (!bad && i == n - 1) { static char cb[1 << 16]; sys->canon(o, cb, sizeof(cb)); }
+        sx_guard_clear();
         printf("  step %d: %s -> %s\n", i, nm, bad ? err : "ok");
         if (bad) { printf("VIOLATION property=%s replay=%s\n", sx_property, sx_replay_file ? sx_replay_file : "-"); return 1; }
     }
@@ -240,6 +311,7 @@ static int sx_init(int argc, char **argv, const char *property)
     }
     if (dl > 0) sx_deadline = sx_now() + dl;
     setvbuf(stdout, NULL, _IOLBF, 0);
+    sx_guard_install();
     sx_json = fopen(json ? json : "/dev/null", "w");
     if (!sx_json) { perror(json); exit(2); }
     fprintf(sx_json, "{\"engine\":\"seqx\",\"property\":\"%s\",\"scenarios\":[\n", property);
